@@ -1,1 +1,655 @@
-//! placeholder (filled in below)
+//! C16: an independent walker over `anda_kip::Command` that looks for the
+//! shapes no accepted command may have. It re-states the rules from the
+//! specification text (SPECIFICATION.md §6.3, §12.5, §13.7, §15.5, §17.5,
+//! §21.2, §53, §54.3, §58.1, §63.4; KIPSyntax.md §1.5, §2.1, §3) and calls none
+//! of the crate's guard or collection functions.
+//!
+//! Every `match` on a mutation-clause, update-action or where-clause enum is
+//! exhaustive on purpose: a new variant must not compile until it is placed.
+
+use anda_kip::{
+    Assignments, BeliefTarget, BoundObject, BoundValue, Command, ElementRef, FacetAssignment, KmlStatement,
+    MatchValue, MetaCommand, MutationClause, MutationValue, ObjectMatcher, PredAtom, PredTerm, PropositionMatcher,
+    PropositionTriple, StructuralEdge, StructuralRemoval, Term, UpdateAction, UpdateStatement, WhereClause,
+};
+use std::collections::{BTreeMap, BTreeSet};
+
+/// Engine-owned state: `_system`, Governance, Space identity and sequence (§6.2, §6.3, §2.11).
+pub const ENGINE_OWNED: &[&str] = &["_system", "governance", "space_id", "space_seq"];
+/// Immutable Assertion payload (§13.7 with the field names of §13.2).
+pub const ASSERTION_PAYLOAD: &[&str] = &[
+    "proposition",
+    "asserted_by",
+    "stance",
+    "mode",
+    "confidence",
+    "asserted_at",
+    "valid_time",
+    "evidence",
+];
+/// Immutable Evidence payload and observation identity (§15.5 with the names of §15.3).
+pub const EVIDENCE_PAYLOAD: &[&str] = &["evidence_class", "payload", "content_digest", "media_type", "observed_at"];
+/// The Proposition tuple (§12.5).
+pub const PROPOSITION_TUPLE: &[&str] = &["subject", "predicate", "object"];
+
+#[derive(Clone, Debug, PartialEq, Eq, PartialOrd, Ord)]
+pub struct Shape {
+    /// stable class, e.g. `engine-owned-field:set-fields`
+    pub class: String,
+    pub detail: String,
+}
+
+fn shape(class: impl Into<String>, detail: impl Into<String>) -> Shape {
+    Shape {
+        class: class.into(),
+        detail: detail.into(),
+    }
+}
+
+/// All forbidden shapes in a command (empty = clean).
+pub fn forbidden_shapes(command: &Command) -> Vec<Shape> {
+    let mut out = Vec::new();
+    match command {
+        Command::Kql(_) => {}
+        Command::Kml(statement) => walk_statement(statement, &mut out),
+        Command::Meta(meta) => {
+            // every META command listed so that a new one has to be placed
+            match meta {
+                MetaCommand::ExportCapsule(export) => {
+                    if contains_belief(&export.where_clauses) {
+                        out.push(shape(
+                            "belief-projection:export-selection",
+                            "EXPORT CAPSULE selects through BELIEF / BELIEF SLOT",
+                        ));
+                    }
+                }
+                MetaCommand::Describe(_)
+                | MetaCommand::List(_)
+                | MetaCommand::Search(_)
+                | MetaCommand::Verify { .. }
+                | MetaCommand::Validate(_)
+                | MetaCommand::Preview(_)
+                | MetaCommand::History(_)
+                | MetaCommand::Changes(_)
+                | MetaCommand::Snapshot { .. } => {}
+            }
+        }
+    }
+    out.sort();
+    out.dedup();
+    out
+}
+
+fn walk_statement(statement: &KmlStatement, out: &mut Vec<Shape>) {
+    // --- handles claimed by the plan: each at most once (§53.2) ---
+    let mut claimed: BTreeMap<&str, usize> = BTreeMap::new();
+    for clause in &statement.clauses {
+        if let Some(h) = claimed_handle(clause) {
+            *claimed.entry(h).or_insert(0) += 1;
+        }
+    }
+    for (h, n) in &claimed {
+        if *n > 1 {
+            out.push(shape("handle-bound-twice", format!("?{h} is claimed by {n} clauses")));
+        }
+    }
+    let plan_handles: BTreeSet<String> = claimed.keys().map(|s| s.to_string()).collect();
+
+    for clause in &statement.clauses {
+        walk_clause(clause, &plan_handles, out);
+    }
+}
+
+/// The handle a clause binds (§53.2: CREATE / UPSERT / ENSURE bind a local handle).
+fn claimed_handle(clause: &MutationClause) -> Option<&str> {
+    match clause {
+        MutationClause::CreateConcept(c) => Some(&c.handle),
+        MutationClause::UpsertConcept(c) => Some(&c.handle),
+        MutationClause::EnsureProposition(c) => c.handle.as_deref(),
+        MutationClause::CreateEvidence(c) | MutationClause::CreateAssertion(c) | MutationClause::CreateActivity(c) => {
+            Some(&c.handle)
+        }
+        MutationClause::Update(_)
+        | MutationClause::RetractAssertion(_)
+        | MutationClause::SupersedeAssertion(_)
+        | MutationClause::CorrectEvidence(_)
+        | MutationClause::TransitionActivity(_)
+        | MutationClause::SetRetention(_)
+        | MutationClause::Archive(_)
+        | MutationClause::Tombstone(_)
+        | MutationClause::Purge(_)
+        | MutationClause::MergeConcept(_) => None,
+    }
+}
+
+/// Handle references of one clause, each with the place it was found.
+#[derive(Default)]
+struct Refs {
+    list: Vec<(String, &'static str)>,
+}
+
+impl Refs {
+    fn element(&mut self, r: &ElementRef) {
+        match r {
+            ElementRef::Handle(h) => self.list.push((h.clone(), "target")),
+            ElementRef::Param(_) | ElementRef::Id(_) => {}
+        }
+    }
+    fn bound(&mut self, v: &BoundValue) {
+        match v {
+            BoundValue::Handle(h) => self.list.push((h.clone(), "value")),
+            BoundValue::Array(items) => items.iter().for_each(|i| self.bound(i)),
+            BoundValue::Object(fields) => fields.iter().for_each(|(_, i)| self.bound(i)),
+            // `?x.field` reads the element being written; it names no other element
+            BoundValue::Value(_) | BoundValue::Param(_) | BoundValue::Variable(_) => {}
+        }
+    }
+    fn value(&mut self, v: &MutationValue) {
+        match v {
+            MutationValue::Handle(h) => self.list.push((h.clone(), "value")),
+            MutationValue::Array(items) => items.iter().for_each(|i| self.bound(i)),
+            MutationValue::Object(fields) => fields.iter().for_each(|(_, i)| self.bound(i)),
+            MutationValue::Value(_) | MutationValue::Param(_) | MutationValue::Variable(_) | MutationValue::Expr(_) => {}
+        }
+    }
+    fn assignments(&mut self, a: &Assignments) {
+        a.iter().for_each(|(_, v)| self.value(v));
+    }
+    fn facets(&mut self, f: &[FacetAssignment]) {
+        f.iter().for_each(|f| self.assignments(&f.values));
+    }
+    fn options(&mut self, o: &BoundObject) {
+        o.values().for_each(|v| self.bound(v));
+    }
+    fn edges(&mut self, e: &[StructuralEdge]) {
+        for edge in e {
+            self.value(&edge.value);
+            if let Some(o) = &edge.options {
+                self.options(o);
+            }
+        }
+    }
+    fn removals(&mut self, r: &[StructuralRemoval]) {
+        r.iter().for_each(|r| self.value(&r.value));
+    }
+    /// An endpoint of a tuple that is being created: a `?name` there is a local
+    /// handle (KIPSyntax §1.5 / §1.6: "local Element reference"; §3.4 example).
+    fn endpoint(&mut self, t: &Term) {
+        match t {
+            Term::Variable(h) => self.list.push((h.clone(), "ensure-endpoint")),
+            Term::Proposition(inner) => match inner.as_ref() {
+                PropositionMatcher::Tuple(triple) => {
+                    self.endpoint(&triple.subject);
+                    self.endpoint(&triple.object);
+                }
+                PropositionMatcher::Id(_) => {}
+            },
+            Term::Param(_) | Term::Literal(_) | Term::Match(_) => {}
+        }
+    }
+}
+
+fn walk_clause(clause: &MutationClause, plan_handles: &BTreeSet<String>, out: &mut Vec<Shape>) {
+    let mut refs = Refs::default();
+    let mut where_clauses: Option<&Vec<WhereClause>> = None;
+
+    match clause {
+        MutationClause::CreateConcept(c) => {
+            engine_owned(c.set_fields.as_ref(), "set-fields", out);
+            engine_owned(c.set_attributes.as_ref(), "set-attributes", out);
+            engine_owned_facets(&c.set_facets, out);
+            c.set_fields.iter().for_each(|a| refs.assignments(a));
+            c.set_attributes.iter().for_each(|a| refs.assignments(a));
+            refs.facets(&c.set_facets);
+            c.set_structural.iter().for_each(|e| refs.edges(e));
+        }
+        MutationClause::UpsertConcept(c) => {
+            engine_owned(c.set_fields.as_ref(), "set-fields", out);
+            engine_owned(c.set_attributes.as_ref(), "set-attributes", out);
+            engine_owned_facets(&c.set_facets, out);
+            engine_owned_names(c.unset_attributes.as_deref(), "unset-attributes", out);
+            for f in &c.unset_facets {
+                engine_owned_names(Some(&f.fields), "unset-facet", out);
+            }
+            c.set_fields.iter().for_each(|a| refs.assignments(a));
+            c.set_attributes.iter().for_each(|a| refs.assignments(a));
+            refs.facets(&c.set_facets);
+            c.set_structural.iter().for_each(|e| refs.edges(e));
+            c.unset_structural.iter().for_each(|r| refs.removals(r));
+            // §54.3: native UPSERT uses a stable identity (id / key); name-only upsert is forbidden
+            if !has_stable_identity(c.r#match.as_ref()) {
+                out.push(shape(
+                    "upsert-without-stable-identity",
+                    format!(
+                        "UPSERT CONCEPT ?{} matches on {:?}",
+                        c.handle,
+                        c.r#match.as_ref().map(|m| m.keys().cloned().collect::<Vec<_>>())
+                    ),
+                ));
+            }
+        }
+        MutationClause::EnsureProposition(c) => {
+            refs.endpoint(&c.subject);
+            refs.endpoint(&c.object);
+        }
+        MutationClause::CreateEvidence(c) | MutationClause::CreateAssertion(c) | MutationClause::CreateActivity(c) => {
+            engine_owned(c.set_fields.as_ref(), "set-fields", out);
+            engine_owned_facets(&c.set_facets, out);
+            c.set_fields.iter().for_each(|a| refs.assignments(a));
+            refs.facets(&c.set_facets);
+            c.set_structural.iter().for_each(|e| refs.edges(e));
+        }
+        MutationClause::Update(c) => {
+            where_clauses = c.where_clauses.as_ref();
+            refs.element(&c.target);
+            for action in &c.actions {
+                match action {
+                    UpdateAction::SetFields(a) => {
+                        engine_owned(Some(a), "set-fields", out);
+                        refs.assignments(a);
+                    }
+                    UpdateAction::SetAttributes(a) => {
+                        engine_owned(Some(a), "set-attributes", out);
+                        refs.assignments(a);
+                    }
+                    UpdateAction::SetFacet(f) => {
+                        engine_owned(Some(&f.values), "set-facet", out);
+                        refs.assignments(&f.values);
+                    }
+                    UpdateAction::UnsetAttributes(names) => engine_owned_names(Some(names), "unset-attributes", out),
+                    UpdateAction::UnsetFacet(f) => engine_owned_names(Some(&f.fields), "unset-facet", out),
+                    UpdateAction::SetStructural(e) => refs.edges(e),
+                    UpdateAction::UnsetStructural(r) => refs.removals(r),
+                }
+            }
+            payload_rewrite(c, out);
+        }
+        MutationClause::RetractAssertion(c) => {
+            where_clauses = c.where_clauses.as_ref();
+            refs.element(&c.target);
+        }
+        MutationClause::SupersedeAssertion(c) => {
+            refs.element(&c.target);
+            refs.element(&c.by);
+        }
+        MutationClause::CorrectEvidence(c) => {
+            refs.element(&c.target);
+            refs.element(&c.by);
+        }
+        MutationClause::TransitionActivity(c) => {
+            refs.element(&c.target);
+            engine_owned(c.set_fields.as_ref(), "transition-set-fields", out);
+            c.set_fields.iter().for_each(|a| refs.assignments(a));
+            c.set_structural.iter().for_each(|e| refs.edges(e));
+        }
+        MutationClause::SetRetention(c) => {
+            where_clauses = c.where_clauses.as_ref();
+            refs.element(&c.target);
+            engine_owned(Some(&c.values), "retention", out);
+            refs.assignments(&c.values);
+        }
+        MutationClause::Archive(c) | MutationClause::Tombstone(c) => {
+            where_clauses = c.where_clauses.as_ref();
+            refs.element(&c.target);
+        }
+        MutationClause::Purge(c) => {
+            where_clauses = c.where_clauses.as_ref();
+            refs.element(&c.target);
+        }
+        MutationClause::MergeConcept(c) => {
+            where_clauses = c.where_clauses.as_ref();
+            refs.element(&c.source);
+            refs.element(&c.into);
+        }
+    }
+
+    // §21.2 / KIPSyntax §2.1: BELIEF / BELIEF SLOT are FIND-only
+    if let Some(w) = where_clauses
+        && contains_belief(w)
+    {
+        out.push(shape(
+            "belief-projection:mutation-selection",
+            "a mutation selects its target through BELIEF / BELIEF SLOT",
+        ));
+    }
+
+    // §53.2 / §53.3: every referenced handle is bound by a clause of the plan
+    // (forward references allowed) or by this clause's own WHERE
+    let mut bound = plan_handles.clone();
+    if let Some(w) = where_clauses {
+        where_variables(w, &mut bound);
+    }
+    for (name, place) in refs.list {
+        if !bound.contains(&name) {
+            out.push(shape(
+                format!("handle-unbound:{place}"),
+                format!("?{name} is bound by no clause of the plan and by no pattern of this clause's WHERE"),
+            ));
+        }
+    }
+}
+
+fn engine_owned(a: Option<&Assignments>, block: &str, out: &mut Vec<Shape>) {
+    for (key, _) in a.into_iter().flatten() {
+        if ENGINE_OWNED.contains(&key.as_str()) {
+            out.push(shape(format!("engine-owned-field:{block}"), format!("{key} is assigned")));
+        }
+    }
+}
+
+fn engine_owned_facets(facets: &[FacetAssignment], out: &mut Vec<Shape>) {
+    for f in facets {
+        engine_owned(Some(&f.values), "set-facet", out);
+    }
+}
+
+fn engine_owned_names(names: Option<&[String]>, block: &str, out: &mut Vec<Shape>) {
+    for name in names.into_iter().flatten() {
+        if ENGINE_OWNED.contains(&name.as_str()) {
+            out.push(shape(format!("engine-owned-field:{block}"), format!("{name} is unset")));
+        }
+    }
+}
+
+fn has_stable_identity(matcher: Option<&ObjectMatcher>) -> bool {
+    let Some(m) = matcher else { return false };
+    ["id", "key"].iter().any(|k| match m.get(*k) {
+        Some(MatchValue::Literal(_)) | Some(MatchValue::Param(_)) => true,
+        Some(MatchValue::Variable(_))
+        | Some(MatchValue::Array(_))
+        | Some(MatchValue::Match(_))
+        | Some(MatchValue::Proposition(_))
+        | None => false,
+    })
+}
+
+// ---------------------------------------------------------------------------
+// WHERE blocks
+// ---------------------------------------------------------------------------
+
+fn contains_belief(clauses: &[WhereClause]) -> bool {
+    clauses.iter().any(|c| match c {
+        WhereClause::Belief { .. } | WhereClause::BeliefSlot { .. } => true,
+        WhereClause::Not(inner) | WhereClause::Optional(inner) | WhereClause::Union(inner) => contains_belief(inner),
+        WhereClause::Concept { .. }
+        | WhereClause::Proposition { .. }
+        | WhereClause::Assertion { .. }
+        | WhereClause::Evidence { .. }
+        | WhereClause::Activity { .. }
+        | WhereClause::Structural { .. }
+        | WhereClause::Filter { .. } => false,
+    })
+}
+
+/// Every variable a WHERE block mentions in a pattern position, at any depth.
+/// Deliberately generous (NOT / OPTIONAL / UNION included): whether a variable
+/// that only occurs under NOT is "bound" is a question of query semantics the
+/// property does not settle, so it must not alarm.
+fn where_variables(clauses: &[WhereClause], out: &mut BTreeSet<String>) {
+    for c in clauses {
+        match c {
+            WhereClause::Concept { variable, matcher }
+            | WhereClause::Assertion { variable, matcher }
+            | WhereClause::Evidence { variable, matcher }
+            | WhereClause::Activity { variable, matcher } => {
+                out.insert(variable.clone());
+                matcher_variables(matcher, out);
+            }
+            WhereClause::Proposition { variable, matcher } => {
+                if let Some(v) = variable {
+                    out.insert(v.clone());
+                }
+                proposition_variables(matcher, out);
+            }
+            WhereClause::Structural {
+                variable,
+                subject,
+                field: _,
+                object,
+            } => {
+                if let Some(v) = variable {
+                    out.insert(v.clone());
+                }
+                term_variables(subject, out);
+                term_variables(object, out);
+            }
+            WhereClause::Belief { variable, target } => {
+                out.insert(variable.clone());
+                match target {
+                    BeliefTarget::Proposition(v) => {
+                        out.insert(v.clone());
+                    }
+                    BeliefTarget::Id(_) => {}
+                    BeliefTarget::Tuple(t) => triple_variables(t, out),
+                }
+            }
+            WhereClause::BeliefSlot {
+                variable,
+                subject,
+                predicate,
+            } => {
+                out.insert(variable.clone());
+                term_variables(subject, out);
+                if let PredAtom::Variable(v) = predicate {
+                    out.insert(v.clone());
+                }
+            }
+            WhereClause::Filter { .. } => {}
+            WhereClause::Not(inner) | WhereClause::Optional(inner) | WhereClause::Union(inner) => {
+                where_variables(inner, out)
+            }
+        }
+    }
+}
+
+fn matcher_variables(m: &ObjectMatcher, out: &mut BTreeSet<String>) {
+    m.values().for_each(|v| match_value_variables(v, out));
+}
+
+fn match_value_variables(v: &MatchValue, out: &mut BTreeSet<String>) {
+    match v {
+        MatchValue::Variable(name) => {
+            out.insert(name.clone());
+        }
+        MatchValue::Array(items) => items.iter().for_each(|i| match_value_variables(i, out)),
+        MatchValue::Match(m) => matcher_variables(m, out),
+        MatchValue::Proposition(p) => proposition_variables(p, out),
+        MatchValue::Param(_) | MatchValue::Literal(_) => {}
+    }
+}
+
+fn proposition_variables(p: &PropositionMatcher, out: &mut BTreeSet<String>) {
+    match p {
+        PropositionMatcher::Tuple(t) => triple_variables(t, out),
+        PropositionMatcher::Id(_) => {}
+    }
+}
+
+fn triple_variables(t: &PropositionTriple, out: &mut BTreeSet<String>) {
+    term_variables(&t.subject, out);
+    term_variables(&t.object, out);
+    match &t.predicate {
+        PredTerm::Atom(PredAtom::Variable(v)) => {
+            out.insert(v.clone());
+        }
+        PredTerm::Atom(PredAtom::Literal(_)) | PredTerm::Atom(PredAtom::Param(_)) => {}
+        PredTerm::Path(atoms) => {
+            for a in atoms {
+                if let PredAtom::Variable(v) = &a.predicate {
+                    out.insert(v.clone());
+                }
+            }
+        }
+    }
+}
+
+fn term_variables(t: &Term, out: &mut BTreeSet<String>) {
+    match t {
+        Term::Variable(v) => {
+            out.insert(v.clone());
+        }
+        Term::Match(m) => matcher_variables(m, out),
+        Term::Proposition(p) => proposition_variables(p, out),
+        Term::Param(_) | Term::Literal(_) => {}
+    }
+}
+
+// ---------------------------------------------------------------------------
+// UPDATE of immutable payload (§58.1, §12.5, §13.7, §15.5, §17.5)
+// ---------------------------------------------------------------------------
+
+#[derive(Clone, Copy, Debug, PartialEq, Eq, PartialOrd, Ord)]
+enum Kind {
+    Concept,
+    Proposition,
+    Assertion,
+    Evidence,
+    Activity,
+}
+
+/// The kind a pattern binds `var` to, when the clause is such a pattern.
+fn pattern_kind(clause: &WhereClause, var: &str) -> Option<Kind> {
+    match clause {
+        WhereClause::Concept { variable, .. } if variable == var => Some(Kind::Concept),
+        WhereClause::Assertion { variable, .. } if variable == var => Some(Kind::Assertion),
+        WhereClause::Evidence { variable, .. } if variable == var => Some(Kind::Evidence),
+        WhereClause::Activity { variable, .. } if variable == var => Some(Kind::Activity),
+        WhereClause::Proposition {
+            variable: Some(variable),
+            ..
+        } if variable == var => Some(Kind::Proposition),
+        WhereClause::Concept { .. }
+        | WhereClause::Assertion { .. }
+        | WhereClause::Evidence { .. }
+        | WhereClause::Activity { .. }
+        | WhereClause::Proposition { .. }
+        | WhereClause::Structural { .. }
+        | WhereClause::Belief { .. }
+        | WhereClause::BeliefSlot { .. }
+        | WhereClause::Filter { .. }
+        | WhereClause::Not(_)
+        | WhereClause::Optional(_)
+        | WhereClause::Union(_) => None,
+    }
+}
+
+/// Kinds `var` is bound to by the patterns written directly in `clauses`
+/// (a conjunction), from index `from` on.
+fn direct_kinds(clauses: &[WhereClause], var: &str, from: usize) -> BTreeSet<Kind> {
+    clauses.iter().skip(from).filter_map(|c| pattern_kind(c, var)).collect()
+}
+
+/// The nested block of a NOT / OPTIONAL / UNION clause.
+fn sub_block(clause: &WhereClause) -> Option<&Vec<WhereClause>> {
+    match clause {
+        WhereClause::Not(inner) | WhereClause::Optional(inner) | WhereClause::Union(inner) => Some(inner),
+        WhereClause::Concept { .. }
+        | WhereClause::Assertion { .. }
+        | WhereClause::Evidence { .. }
+        | WhereClause::Activity { .. }
+        | WhereClause::Proposition { .. }
+        | WhereClause::Structural { .. }
+        | WhereClause::Belief { .. }
+        | WhereClause::BeliefSlot { .. }
+        | WhereClause::Filter { .. } => None,
+    }
+}
+
+/// Does `var` get a kind pattern anywhere inside these clauses (any depth)?
+fn mentions_kind_anywhere(clauses: &[WhereClause], var: &str) -> bool {
+    clauses
+        .iter()
+        .any(|c| pattern_kind(c, var).is_some() || sub_block(c).is_some_and(|inner| mentions_kind_anywhere(inner, var)))
+}
+
+/// The ways `var` can end up bound to an element of exactly one kind, as
+/// `(kind, route)`. Only routes on which the block really yields elements of
+/// that kind are reported:
+///
+/// * `sole-binding` / `decoy-binding`: the patterns written directly in the
+///   block bind `var` to exactly one kind (two different kinds in one
+///   conjunction can match nothing). `decoy` = `var` also has a kind pattern
+///   inside some NOT / OPTIONAL / UNION block, which does not change what the
+///   conjunction binds.
+/// * `optional-only`: `var` has no direct pattern and one kind inside OPTIONAL.
+/// * `union-branch`: a UNION block is an alternative branch whose solutions
+///   are added to the result (§44.5); inside it `var` is bound to exactly one
+///   kind and no pattern written after the block in the enclosing conjunction
+///   pins `var` to another kind.
+fn single_kind_routes(clauses: &[WhereClause], var: &str) -> Vec<(Kind, &'static str)> {
+    let mut out = Vec::new();
+    let own = direct_kinds(clauses, var, 0);
+    if own.len() == 1 {
+        let kind = *own.iter().next().unwrap();
+        let decoy = clauses
+            .iter()
+            .any(|c| sub_block(c).is_some_and(|inner| mentions_kind_anywhere(inner, var)));
+        out.push((kind, if decoy { "decoy-binding" } else { "sole-binding" }));
+    }
+    if own.is_empty() {
+        let mut optional: BTreeSet<Kind> = BTreeSet::new();
+        for c in clauses {
+            if let WhereClause::Optional(inner) = c {
+                optional.extend(direct_kinds(inner, var, 0));
+            }
+        }
+        if optional.len() == 1 {
+            out.push((*optional.iter().next().unwrap(), "optional-only"));
+        }
+    }
+    for (i, c) in clauses.iter().enumerate() {
+        if let WhereClause::Union(inner) = c {
+            let later = direct_kinds(clauses, var, i + 1);
+            for (kind, _) in single_kind_routes(inner, var) {
+                if later.iter().all(|k| *k == kind) {
+                    out.push((kind, "union-branch"));
+                }
+            }
+        }
+    }
+    out
+}
+
+fn payload_rewrite(update: &UpdateStatement, out: &mut Vec<Shape>) {
+    let (ElementRef::Handle(var), Some(clauses)) = (&update.target, &update.where_clauses) else {
+        // a direct target (:id / "id") has no kind the text could show
+        return;
+    };
+    for (kind, route) in single_kind_routes(clauses, var) {
+        let payload: &[&str] = match kind {
+            Kind::Assertion => ASSERTION_PAYLOAD,
+            Kind::Evidence => EVIDENCE_PAYLOAD,
+            Kind::Proposition => PROPOSITION_TUPLE,
+            Kind::Concept | Kind::Activity => continue,
+        };
+        for action in &update.actions {
+            match action {
+                UpdateAction::SetFields(a) => {
+                    for (key, _) in a {
+                        if payload.contains(&key.as_str()) {
+                            out.push(shape(
+                                format!("payload-rewrite:{route}"),
+                                format!("UPDATE ?{var} (bound as {kind:?}) SET FIELDS {key}"),
+                            ));
+                        }
+                    }
+                }
+                // §13.7 "initial Evidence citations", §17.5 "Assertion, Evidence ... topology stays immutable"
+                UpdateAction::SetStructural(_) | UpdateAction::UnsetStructural(_)
+                    if matches!(kind, Kind::Assertion | Kind::Evidence) =>
+                {
+                    out.push(shape(
+                        format!("payload-rewrite:{route}"),
+                        format!("UPDATE ?{var} (bound as {kind:?}) rewrites its structural references"),
+                    ));
+                }
+                UpdateAction::SetStructural(_)
+                | UpdateAction::UnsetStructural(_)
+                | UpdateAction::SetAttributes(_)
+                | UpdateAction::SetFacet(_)
+                | UpdateAction::UnsetAttributes(_)
+                | UpdateAction::UnsetFacet(_) => {}
+            }
+        }
+    }
+}
